@@ -11,7 +11,7 @@
     original message itself or not; returns nil / an error / panics).  Each delivery is handled
     by its own closure invocation that shares nothing but the configuration with the others,
     so the statements are per delivery. *)
-From WM Require Import Base.Prelude Message.Model Handler.RouterHandle Handler.RouterProofs CQRS.Model CQRS.Proofs CQRS.Reg CQRS.RegProofs.
+From WM Require Import Base.Prelude Message.Model Handler.RouterHandle Handler.RouterProofs CQRS.Model CQRS.Proofs CQRS.Reg CQRS.RegProofs CQRS.Calls CQRS.CallsProofs.
 
 Section C15.
   Context {V T P : Type}.
@@ -342,6 +342,41 @@ Section C15_Reg.
   Proof. exact (reg_monitor_accepts gen_name zero). Qed.
 End C15_Reg.
 
+(** ** the marshaler call discipline (round "proofs"; model: CQRS/Calls.v) *)
+Section C15_Calls.
+  Context {V T P : Type}.
+  Variable gen_name : V -> N.
+  Variable enc : V -> option P.
+  Variable dec : P -> T -> option V.
+  Variable zero : T -> V.
+
+  (** every delivery, every processor kind, every handler list / flags / OnHandle mode / handler
+      behaviour: NameFromMessage first and before every Unmarshal (the group closure calls it a
+      second time only to build its "no handler found" error); Unmarshal only into a
+      brand-new object of a type whose name equals the message's name; Handle only on an object
+      that was decoded successfully (each at most once); nothing after a failed Unmarshal; the
+      processors never call Marshal or Name on behalf of a message *)
+  Theorem C15_marshaler_calls : forall cfg (msg : wmsg P) (d : @delivery T),
+    mcalls_ok (V:=V) (name_from msg) (proc_mcalls gen_name dec zero cfg msg d) = true.
+  Proof. exact (proc_mcalls_ok gen_name dec zero). Qed.
+
+  (** the call-level view and the event-level model dispatch to the same handlers *)
+  Theorem C15_marshaler_calls_agree_with_dispatch : forall cfg (msg : wmsg P) (d : @delivery T),
+    mhandles (proc_mcalls gen_name dec zero cfg msg d)
+    = map fst (calls (snd (fst (process gen_name dec zero cfg msg d)))).
+  Proof. exact (proc_mhandles gen_name dec zero). Qed.
+
+  (** a Send / Publish calls Marshal exactly once, first, on the value sent *)
+  Theorem C15_bus_marshals_once : forall v : V,
+    length (filter (fun e => match e with MMarshal _ => true | _ => false end) (bus_mcalls enc v)) = 1
+    /\ exists rest, bus_mcalls enc v = MMarshal v :: rest.
+  Proof. exact (bus_one_marshal enc). Qed.
+
+  Theorem C15_bus_marshaler_calls_accepted : forall (eqbV : V -> V -> bool), (forall v, eqbV v v = true) ->
+    forall v, bus_mcalls_ok enc eqbV v (bus_mcalls enc v) = true.
+  Proof. exact (bus_mcalls_accepts enc). Qed.
+End C15_Calls.
+
 Print Assumptions C15_bus_publishes_at_most_once.
 Print Assumptions C15_bus_publishes_once.
 Print Assumptions C15_bus_message_carries_name_and_payload.
@@ -379,6 +414,11 @@ Print Assumptions C15_registration_duplicate_batch_rejected.
 Print Assumptions C15_registration_deprecated_defers.
 Print Assumptions C15_registration_group_spec.
 Print Assumptions C15_registration_model_accepted.
+
+Print Assumptions C15_marshaler_calls.
+Print Assumptions C15_marshaler_calls_agree_with_dispatch.
+Print Assumptions C15_bus_marshals_once.
+Print Assumptions C15_bus_marshaler_calls_accepted.
 
 (** ** non-vacuity: concrete instances (values = (type, content), identity codec on the content,
     the name of a value is its type number) *)
